@@ -15,6 +15,7 @@ import (
 )
 
 type vpReplayFile struct {
+	Label   string            `json:"label"` // the assertion label a replay is confirming ("" for path validation)
 	Harness string            `json:"harness"`
 	Tier    int               `json:"tier"`
 	Inputs  map[string]uint64 `json:"inputs"`
@@ -196,6 +197,16 @@ func vpClock(name string, k int) int64 { return 0 }
 
 // vpJSONAppendString: engine only (runs encoding/json's unexported escaping loop).
 func vpJSONAppendString(dst []byte, s string, escapeHTML bool) []byte { panic("engine only") }
+
+// vpReplayLabel: natively, the label of the counterexample being confirmed (so that a
+// hand-written native scenario reports under that label), else the default.
+func vpReplayLabel(def string) string {
+	vpLoad()
+	if vpIn.Label != "" {
+		return vpIn.Label
+	}
+	return def
+}
 
 var vpHashMemo = map[string]uint64{}
 
